@@ -2,6 +2,7 @@ SPECIFICATION SSpec
 CONSTANTS
   Members = {"p", "q"}
   Vals = {1, 2}
+  HwMax = 1
 INVARIANT TypeOK
 INVARIANT Agree
 PROPERTY WriteLands
